@@ -190,7 +190,21 @@ func wellFormedName(n string) bool {
 
 // evaluate runs one Doc through the implementation, emits correspondence cases into out and returns
 // the oracle failures (implementation only).
+// histRec: one earlier Marshal call whose result is still held
+type histRec struct {
+	path, dump string
+	fd         *tr.FileDescriptor
+	held, copy []byte // the slice as returned / a copy taken at return time
+	raw        []byte // gunzip of the copy
+	want       string
+}
+
+// the held results of the previous program (cross-program histories) and that program
+var prevHist []*histRec
+var prevDoc *Doc
+
 func evaluate(d *Doc, out sink, r *vl.Rng) (fails []ofail, err error) {
+	var hist []*histRec
 	root, perr := parser.ParseBatchString(d.Files[0].Path, d.Render(), nil)
 	if perr != nil {
 		return nil, fmt.Errorf("generated program rejected by the parser: %v", perr)
@@ -281,7 +295,97 @@ func evaluate(d *Doc, out sink, r *vl.Rng) (fails []ofail, err error) {
 		if want := "ok " + descDump(fd); res != want {
 			add("roundtrip", f.Path+": Unmarshal(Marshal(fd)) differs from fd", clip(want), clip(res))
 		}
+		hist = append(hist, &histRec{path: f.Path, dump: dump, fd: fd, held: bs, copy: append([]byte{}, bs...), raw: raw, want: "ok " + descDump(fd)})
 	}
+
+	// ---- call histories: Marshal is a function of its argument, whatever was marshalled before or after.
+	// All descriptors of the program are marshalled by now (and the ones of the previous program before them);
+	// every slice handed out earlier must still hold, and decode to, its own descriptor.
+	checkHeld := func(h *histRec, when string) {
+		if !bytes.Equal(h.held, h.copy) {
+			add("marshal-history", h.path+": the slice returned by Marshal was changed by "+when, "the bytes as returned", "different bytes")
+		}
+		res := guard(func() string {
+			raw, e := gunzip(h.held)
+			if e != nil {
+				return "err"
+			}
+			c, e := canonBytes(raw)
+			if e != nil {
+				return "malformed"
+			}
+			return "ok " + vl.Hex(string(c))
+		})
+		out.Case("HM "+h.dump, res, true)
+		res = guard(func() string {
+			x, e := tr.Unmarshal(h.held)
+			if e != nil {
+				return "err"
+			}
+			return "ok " + descDump(x)
+		})
+		out.Case("HU "+vl.Hex(string(h.raw)), res, true)
+		if res != h.want {
+			add("marshal-history", h.path+": Unmarshal of the bytes Marshal returned, after "+when, clip(h.want), clip(res))
+		}
+	}
+	for _, h := range hist {
+		checkHeld(h, "later Marshal calls of the same program")
+	}
+	for _, h := range prevHist {
+		before := len(fails)
+		checkHeld(h, "the Marshal calls of the next program")
+		for i := before; i < len(fails); i++ {
+			fails[i].class = "marshal-history-across-programs"
+		}
+	}
+	// interleaving: marshal A, marshal B, decode A, marshal A again: same (canonical) bytes as the first time
+	if len(hist) > 0 {
+		a, b := hist[0], hist[len(hist)-1]
+		res := guard(func() string {
+			a1, e := a.fd.Marshal()
+			if e != nil {
+				return "err"
+			}
+			c1 := append([]byte{}, a1...)
+			if _, e := b.fd.Marshal(); e != nil {
+				return "err"
+			}
+			x, e := tr.Unmarshal(a1)
+			if e != nil {
+				return "decode-a:err"
+			}
+			if got := "ok " + descDump(x); got != a.want {
+				return "decode-a:" + clip(got)
+			}
+			a2, e := a.fd.Marshal()
+			if e != nil {
+				return "err"
+			}
+			if !bytes.Equal(a1, c1) {
+				return "first-slice-changed"
+			}
+			r1, e1 := gunzip(c1)
+			r2, e2 := gunzip(a2)
+			if e1 != nil || e2 != nil {
+				return "err"
+			}
+			k1, _ := canonBytes(r1)
+			k2, _ := canonBytes(r2)
+			if !bytes.Equal(k1, k2) {
+				return "second-marshal-differs"
+			}
+			return "ok " + vl.Hex(string(k2))
+		})
+		out.Case("HM "+a.dump, res, true)
+		if !strings.HasPrefix(res, "ok ") {
+			add("marshal-history", a.path+": marshal A, marshal "+b.path+", decode A, marshal A again", "A both times", clip(res))
+		}
+	}
+	if len(hist) > 3 {
+		hist = hist[len(hist)-3:]
+	}
+	prevHist, prevDoc = hist, d
 
 	// ---- the parser's Annotations.Append on the source-level annotation lists of the Doc
 	for _, as := range docAnnoLists(d) {
@@ -679,6 +783,7 @@ func cloneDoc(d *Doc) *Doc {
 
 func failsClass(d *Doc, class string) bool {
 	defer func() { recover() }()
+	prevHist, prevDoc = nil, nil
 	fs, err := evaluate(d, nullSink{}, vl.NewRng(7))
 	if err != nil {
 		return false
@@ -839,6 +944,7 @@ func stripDoc(c *Doc, annos, comments bool) bool {
 type replayInput struct {
 	Class string `json:"class"`
 	Doc   *Doc   `json:"doc"`
+	Prev  *Doc   `json:"prev,omitempty"` // cross-program histories: the program run before Doc
 	IDL   string `json:"idl"`
 }
 
@@ -855,6 +961,7 @@ func run(repo, dir string, seed uint64, tier string) error {
 	// 1. the excluded shape and the regression items, replayed on the implementation
 	failingWitness := map[string]bool{}
 	for _, w := range witnesses() {
+		pd := prevDoc
 		fs, err := evaluate(w.doc, out, r)
 		if err != nil {
 			return err
@@ -867,6 +974,12 @@ func run(repo, dir string, seed uint64, tier string) error {
 				}
 				hit = true
 			} else {
+				if f.class == "marshal-history-across-programs" && pd != nil {
+					out.Fail(vl.OracleFail{Key: "C15/witness/" + w.name + "/" + f.class, What: f.class + ": " + f.what,
+						Input:    replayInput{Class: f.class, Doc: w.doc, Prev: pd, IDL: pd.Text() + "=== then ===\n" + w.doc.Text()},
+						Expected: f.expected, Observed: f.observed})
+					continue
+				}
 				report(out, w.doc, f, "C15/witness/"+w.name+"/"+f.class)
 			}
 		}
@@ -890,6 +1003,7 @@ func run(repo, dir string, seed uint64, tier string) error {
 			cfg.dupKeys = true
 		}
 		d := genDoc(r, cfg)
+		pd := prevDoc
 		fs, err := evaluate(d, out, r)
 		if err != nil {
 			return fmt.Errorf("%v\n%s", err, d.Text())
@@ -907,6 +1021,12 @@ func run(repo, dir string, seed uint64, tier string) error {
 				continue
 			}
 			reported[f.class] = true
+			if f.class == "marshal-history-across-programs" && pd != nil {
+				out.Fail(vl.OracleFail{Key: "C15/" + f.class + "/" + pd.Text() + "=== then ===\n" + d.Text(), What: f.class + ": " + f.what,
+					Input:    replayInput{Class: f.class, Doc: d, Prev: pd, IDL: pd.Text() + "=== then ===\n" + d.Text()},
+					Expected: f.expected, Observed: f.observed})
+				continue
+			}
 			m := shrink(d, f.class)
 			mf := f
 			if fs2, err := evaluate(m, nullSink{}, vl.NewRng(7)); err == nil {
@@ -1039,6 +1159,12 @@ func replay(repo, file string) error {
 	}
 	var fails []vl.OracleFail
 	if doc.Input.Doc != nil {
+		prevHist, prevDoc = nil, nil
+		if doc.Input.Prev != nil {
+			if _, err := evaluate(doc.Input.Prev, nullSink{}, vl.NewRng(7)); err != nil {
+				return err
+			}
+		}
 		fs, err := evaluate(doc.Input.Doc, nullSink{}, vl.NewRng(7))
 		if err != nil {
 			return err
